@@ -28,6 +28,8 @@ var c04Templates = []c04Template{
 	{"K3", "collection-watch"},
 	{"K4", "kill-between-shards"},
 	{"K6", "collection-drop-meets-full-event-queue-while-paused"},
+	{"K7", "pause-resume-on-shared-target-then-drop-partition"},
+	{"K7", "pause-resume-on-shared-target-then-drop-collection"},
 }
 
 func genC04Scens(run *vf.Run) []*c04Scen {
@@ -63,6 +65,10 @@ func genC04Scen(seed int64, idx int, t c04Template) *c04Scen {
 	g.sc = &c04Scen{Idx: idx, Kind: t.kind, Sub: t.sub, Sc: w}
 	if t.kind == "K6" {
 		g.genK6()
+		return g.sc
+	}
+	if t.kind == "K7" {
+		g.genK7(t.sub)
 		return g.sc
 	}
 	// world
@@ -345,4 +351,54 @@ func genC04CrashRepro() *c04Scen {
 	g.add(c04Step{Op: "wait_drop", Coll: 1, Part: -1}, c04Step{Op: "settle"})
 	g.add(c04Step{Op: "create_part", Coll: 2, Name: "late1"}, c04Step{Op: "sleep", N: 3000})
 	return g.sc
+}
+
+// genK7: two tasks of ONE target (one per database), so the target's reader objects (channel manager, catalog
+// watchers) outlive the pause of one of them. The task that owns a collection with user partitions is paused and
+// resumed (once or twice); only then is a partition registered BEFORE the pause - or the whole collection - dropped
+// upstream: the resumed readers must have their drop barriers again, the drop request must arrive exactly once.
+func (g *c04Gen) genK7(sub string) {
+	rnd, w := g.rnd, g.w
+	// the two tasks read disjoint source channels: stopping the streams of one task closes the whole handler of each
+	// of its source channels (an observation outside C04, see DESIGN section 8), which would strand the other task
+	two := rnd.Perm(2)
+	ca := collDef{DB: "default", Name: "u1", PChannels: []int{two[0], two[1]}, Parts: []string{"p1", "p2"}}
+	cb := collDef{DB: c04DBB, Name: "c0", PChannels: []int{2}, Parts: []string{"p1"}}
+	w.Colls = []collDef{{DB: "default", Name: "zc", PChannels: []int{rnd.Intn(2)}}, ca, cb}
+	w.Tasks = []taskDef{{Target: 0, Collections: "*", DB: "default"}, {Target: 0, Collections: "*", DB: c04DBB}}
+	g.sc.LastListedDB = c04DBB
+	for _, cd := range w.Colls {
+		g.parts = append(g.parts, append([]string{"_default"}, cd.Parts...))
+	}
+	if rnd.Intn(2) == 0 {
+		for ci := range w.Colls {
+			g.add(c04Step{Op: "create_coll", Coll: ci})
+		}
+		g.add(c04Step{Op: "create_task", Task: 1}, c04Step{Op: "create_task", Task: 0})
+	} else {
+		g.add(c04Step{Op: "create_task", Task: 0}, c04Step{Op: "create_task", Task: 1})
+		for ci := range w.Colls {
+			g.add(c04Step{Op: "create_coll", Coll: ci})
+		}
+	}
+	g.add(c04Step{Op: "wait_parts"}, c04Step{Op: "settle"})
+	g.trickle(2)
+	g.add(c04Step{Op: "settle"})
+	for k, n := 0, 1+rnd.Intn(2); k < n; k++ {
+		g.add(c04Step{Op: "pause", Task: 0}, c04Step{Op: "sleep", N: 100 + rnd.Intn(300)})
+		g.trickle(1) // the other task keeps replicating, the paused one's rows wait upstream
+		g.add(c04Step{Op: "resume", Task: 0})
+		g.trickle(1)
+		g.add(c04Step{Op: "settle"})
+	}
+	if sub == "pause-resume-on-shared-target-then-drop-collection" {
+		g.drop(1, -1, -1, nil)
+	} else {
+		g.drop(1, 1+rnd.Intn(2), -1, nil)
+		if rnd.Intn(2) == 0 {
+			g.trickle(1)
+			g.drop(2, 1, -1, nil) // and a partition of the task that was never paused
+		}
+	}
+	g.trickle(1)
 }
